@@ -96,6 +96,9 @@ func (c *Conn) handleAuthenticate(tag string, dec *imapwire.Decoder) error {
 		if err != nil {
 			return err
 		} else if isPrefix {
+			if err := discardLongLine(c.br); err != nil {
+				return err
+			}
 			return fmt.Errorf("SASL response too long")
 		} else if string(encodedResp) == "*" {
 			return &imap.Error{
